@@ -79,11 +79,24 @@ class World:
         self.cls = {}        # handle -> class name
         self.family = {}     # handle -> key family id (shared key storage)
         self.inputs = {}     # handle -> (keys array, values array) objects given to its constructor
+        self.last_array = None
         self.stats = {}
         self.audits = 0
 
     def count(self, k, n=1):
         self.stats[k] = self.stats.get(k, 0) + n
+
+    def caller_array(self, op, values, dtype):
+        """The array object the caller passes in.  With op["reuse"] the very same object as in the previous vector
+        operation is passed again (the library must not have modified the caller's array)."""
+        if op.get("as_list"):
+            return list(values)
+        if op.get("reuse") and self.last_array is not None and self.last_array[0] == (list(values), dtype):
+            self.count("caller_arrays_reused")
+            return self.last_array[1]
+        arr = _keyarr(values, dtype)
+        self.last_array = ((list(values), dtype), arr)
+        return arr
 
     # -- audit: all handles against their models, reading fields without going through the API ----
     def _peek(self, t):
@@ -235,7 +248,7 @@ class World:
     def op_getv(self, i, op):
         hname, keys = op["h"], op["keys"]
         model = self.m[hname]
-        q = _keyarr(keys, op.get("q_dtype")) if not op.get("as_list") else list(keys)
+        q = self.caller_array(op, keys, op.get("q_dtype"))
         st, r = self._call(lambda: self.h[hname][q])
         absent = [kk for kk in keys if kk not in model]
         if absent:
@@ -339,7 +352,7 @@ class World:
             st, r = self._call(lambda: self.h[hname].contains(keys[0]))
             exp = [keys[0] in model]
         else:
-            q = _keyarr(keys, op.get("q_dtype")) if not op.get("as_list") else list(keys)
+            q = self.caller_array(op, keys, op.get("q_dtype"))
             st, r = self._call(lambda: self.h[hname].contains(q))
             exp = [kk in model for kk in keys]
         if st == "raised":
@@ -381,10 +394,7 @@ class World:
         model = self.m[hname]
         before = self.state_of(hname)
         batch = op["batch"]
-        if op.get("as_list"):
-            arg = list(batch)
-        else:
-            arg = np.array(batch, dtype=op.get("b_dtype") or np.int64)
+        arg = self.caller_array(op, batch, op.get("b_dtype"))
         st, r = self._call(lambda: self.h[hname].count(arg))
         if st == "raised":
             raise Violation("count_refused", i, {"batch": batch[:10], "exc": type(r).__name__, "msg": str(r)[:200]})
